@@ -9,7 +9,20 @@
 #include <sys/wait.h>
 #include <signal.h>
 
+#ifdef VERIF_TSAN
+#include <atomic>
+// ThreadSanitizer calls this weak hook of its runtime for every report it prints: an execution during which the count moved
+// is given the verdict BAD|no-data-race|... whatever its harness oracle said (the report itself is on stderr)
+static std::atomic<int> sx_tsan_reports;
+extern "C" void __tsan_on_report(void *) { ++sx_tsan_reports; }
+static inline int sx_reports() { return sx_tsan_reports; }
+#else
+static inline int sx_reports() { return 0; }
+#endif
+
 namespace sx {
+inline std::string with_race_verdict(int before, const std::string& out)
+{ const int n = sx_reports() - before; return n ? "BAD|no-data-race|tsan:data-race reported during this execution (report on stderr)|" + out : out; }
 
 struct Pt { int n; bool running_first; int thread; int choice; int tag; uint64_t hash; bool has_hash; };
 struct Exec {
@@ -47,7 +60,8 @@ inline Exec run_once(const std::function<std::string()>& body, const std::vector
 		close(pf[0]); close(ef[0]); dup2(ef[1], 2); close(ef[1]);
 		alarm(timeout_s);
 		vs_begin(prefix.data(), (int)prefix.size(), pf[1]);
-		std::string out = body();
+		const int rb = sx_reports();
+		std::string out = with_race_verdict(rb, body());
 		vs_end();
 		std::string line = "O " + out + "\n";
 		ssize_t r = write(pf[1], line.data(), line.size()); (void)r;
@@ -78,7 +92,8 @@ inline Exec run_once_inproc(const std::function<std::string()>& body, const std:
 	Exec x;
 	alarm(timeout_s);
 	vs_begin(prefix.data(), (int)prefix.size(), -2);
-	x.outcome = body();
+	const int rb = sx_reports();
+	x.outcome = with_race_verdict(rb, body());
 	vs_end();
 	alarm(0);
 	if (vs_leftover()) { fprintf(stderr, "INPROC: %d thread(s) of the execution did not finish\n", vs_leftover()); fflush(stderr); _exit(4); }
